@@ -151,7 +151,8 @@ def build(case, wdir):
             os.utime(cur, (2000000000, 2000000000))
         if case.get('decoy'):
             # node list of an earlier job: older, must not be used
-            old = os.path.join(ccm, 'nodelist.4242')
+            # (its name sorts before or after the current one: job ids are not ordered strings)
+            old = os.path.join(ccm, 'nodelist.4242' if len(case['decoy']) % 2 else 'nodelist.99')
             _write(old, M.file_hosts(case, 'decoy'))
             os.utime(old, (1000000000, 1000000000))
             if drop:
